@@ -28,6 +28,9 @@ mod socket;
 mod window;
 mod worker;
 
+#[cfg(rs_tftpd_verif)]
+pub mod verif;
+
 #[cfg(feature = "client")]
 pub use client::Client;
 #[cfg(feature = "client")]
